@@ -430,7 +430,8 @@ def gen_cases(ctx, n_dy, n_real, n_rev, n_mask):
     for i in range(n_mask):
         fam, x = next(it)
         case = base('mask', fam, x)
-        case['envelope_opts'], case['extrema_opts'] = {}, {}
+        if i % 2 == 0:                                 # defaults; otherwise the drawn interpolation / padding options
+            case['envelope_opts'], case['extrema_opts'] = {}, {}
         if case['imf_opts']['max_iters'] < 5 and case['imf_opts']['stop_method'] != 'fixed':
             case['imf_opts']['max_iters'] = 50
         nph = [1, 2, 3, 4, 4, 8][i % 6]
